@@ -1,4 +1,5 @@
 import ViaProofs.Statements
+import ViaModel.Conn
 /-
   C15 — Expect: 100-continue is answered before the server waits for the body.
 
@@ -10,7 +11,10 @@ import ViaProofs.Statements
   * `C15_chunk_expect`   chunked framing: the same, whatever has arrived;
   * `C15_at_most_once`   once `continue_sent_` is set no further EXPECT_CONTINUE is reported for the request;
   * `C15_not_for_http10` never for HTTP/1.0 or earlier;
-  * `C15_reset`          `clear()` resets the flag between requests.
+  * `C15_reset`          `clear()` resets the flag between requests;
+  * `C15_continue_keeps_connection`  sending the interim 100 Continue never starts a disconnect, whatever the
+                         request said about keep-alive (`http_connection::send(buffers, is_continue = true)`; the
+                         condition is extracted from the source as `Gen.continueKeepsOpen`).
 -/
 namespace Via
 
@@ -69,5 +73,12 @@ example :
     r.request.isTrace = false ∧ 0 < r.request.headers.contentLength ∧
     r.request.headers.contentLength ≤ ((1048576 : Nat) : Int) ∧ r.request.expectContinue = true ∧
     r.continueSent = false := by decide
+
+open Sim in
+theorem C15_continue_keeps_connection (fuel : Nat) (w : World) (i : Nat) (bufs : List Buf) :
+    httpSendTail (fuel + 1) w i bufs true =
+      (let w' := w.upd i fun c => { c with rx := { c.rx with continueSent := true } }
+       if !(w'.get i).alive then (w', false) else ((sendData w' i bufs).1, true)) := by
+  simp [httpSendTail, Gen.continueKeepsOpen]
 
 end Via
